@@ -471,8 +471,13 @@ func addCollections(m map[string]intrinsic) {
 	// ---- query.CollectionPaginate: real option closures, real transform closure, paging ignored --------
 	m["github.com/cosmos/cosmos-sdk/types/query.CollectionPaginate"] = func(st *State, fr *frame, a []value, cc *ssa.CallCommon) value {
 		fn := st.curFn
-		ci, ok := a[1].(iface)
-		if !ok || ci.t == nil {
+		var ci iface
+		if x, ok := a[1].(iface); ok {
+			ci = x
+		} else {
+			ci = iface{t: fn.Signature.Params().At(1).Type(), v: a[1]}
+		}
+		if ci.t == nil {
 			panic(pathEnd{kind: "panic", msg: "CollectionPaginate on a nil collection"})
 		}
 		name := collName(ci.t, ci.v)
@@ -490,8 +495,25 @@ func addCollections(m map[string]intrinsic) {
 			}
 		}
 		if pr, ok := a[2].(*value); ok && pr != nil {
-			st.pagedRequests++
+			// an explicit page request: only the all-default request is summarised (paging is outside the claim)
+			for _, f := range (*pr).(structure) {
+				switch x := f.(type) {
+				case *Term:
+					if !x.IsConst() || x.C.Sign() != 0 {
+						panic(pathEnd{kind: "unsupported", msg: "CollectionPaginate with a non-default page request"})
+					}
+				case *Str:
+					if c, ok := x.Concrete(); !ok || c != "" {
+						panic(pathEnd{kind: "unsupported", msg: "CollectionPaginate with a non-default page request"})
+					}
+				case []value:
+					if len(x) != 0 {
+						panic(pathEnd{kind: "unsupported", msg: "CollectionPaginate with a non-default page request"})
+					}
+				}
+			}
 		}
+		const defaultLimit = 100 // query.DefaultLimit, applied when the request has no limit
 		optT := fn.Signature.Params().At(4).Type().(*types.Slice).Elem().(*types.Signature).Params().At(0).Type().(*types.Pointer).Elem()
 		op := new(value)
 		*op = zero(optT)
@@ -534,6 +556,9 @@ func addCollections(m map[string]intrinsic) {
 				return tuple{[]value(nil), (*value)(nil), e}
 			}
 			out = append(out, r[0])
+			if len(out) == defaultLimit {
+				break
+			}
 		}
 		// PageResponse{NextKey: nil, Total: 0}: paging is outside the claim
 		prT := fn.Signature.Results().At(1).Type().(*types.Pointer).Elem()
